@@ -20,7 +20,8 @@ FAMILIES = [
 
 ASSUMPTIONS = sysprops.COMMON_ASSUMPTIONS + [
     "absence of panics inside serde_json / bincode / LengthDelimitedCodec on arbitrary bytes is tested (c16dec), not proved",
-    "no tracing subscriber is installed in these runs; the span fields that format the deadline are therefore not evaluated",
+    "the system families run without a subscriber (sub=0), with a formatting subscriber (sub=1) and with an OpenTelemetry subscriber (sub=2, SDK tracer without exporter)",
+    "virtual time stays below 2^35 ms (397 days) in generated scripts; beyond it see the known finding timer-wheel-lag",
 ]
 
 PARTIAL = [
